@@ -338,6 +338,11 @@ func (i *interpreter) convSym(utDst, utSrc types.Type, x value) (value, bool) {
 			case types.Rune:
 				return freshSliceT(x.r, 4, int32(0)), true
 			case types.Byte:
+				if len(x.r) == 1 {
+					if tok, isTok := x.r[0].(opaqueSeg); isTok {
+						return []value{tok}, true // opaque text keeps its identity
+					}
+				}
 				return freshSliceT(i.strBytes(x), 1, uint8(0)), true
 			}
 		}
@@ -349,6 +354,9 @@ func (i *interpreter) convSym(utDst, utSrc types.Type, x value) (value, bool) {
 				if isSym(e) {
 					anySym = true
 					break
+				}
+				if tok, isTok := e.(opaqueSeg); isTok && len(x) == 1 {
+					return &symStr{r: []value{tok}}, true
 				}
 			}
 			if !anySym {
